@@ -155,6 +155,9 @@ class BitstreamValidator(object):
         try:
             self._file = open(self._filename, "rb")
             self._filesize_bytes = os.path.getsize(self._filename)
+            # Positions within the file are needed throughout validation: fail
+            # now, as a file error, if the file cannot report them (e.g. a pipe)
+            self._file.tell()
         except Exception as e:
             # Catch-all exception handler excuse: Catching only file-related
             # exceptions is challenging, particularly in a backward-compatible
